@@ -45,7 +45,8 @@ func init() {
 func c10Escape(s string) string { return refint.EscapeLit(s) }
 
 func c10Run(c *harness.Check, cs escCase) string {
-	var out string
+	var out, again string
+	hasAgain := false
 	if cs.Tree != nil {
 		tc := treeCase{Files: cs.Tree, Dir: "t", Ext: ".tw", Page: "page"}
 		tr := loadAndRender(c, tc)
@@ -56,6 +57,12 @@ func c10Run(c *harness.Check, cs escCase) string {
 			return "unexpected error: " + tr.LoadErr + tr.Err
 		}
 		out = tr.Out
+		if tr.Again != nil {
+			if tr.Again.IsErr() {
+				return "second render of the same loaded templates: unexpected error: " + tr.Again.Err
+			}
+			again, hasAgain = tr.Again.Out, true
+		}
 	} else {
 		r := evalString(c, "json", mustJSON(cs), cs.Src, nil)
 		if r.Panic != nil {
@@ -66,7 +73,20 @@ func c10Run(c *harness.Check, cs escCase) string {
 		}
 		out = r.Out
 	}
-	if cs.Context == "plain-after-upper" {
+	if f := c10CheckOutput(cs, out); f != "" {
+		return f
+	}
+	if hasAgain {
+		// the literal is escaped exactly once in every render of a loaded template
+		if f := c10CheckOutput(cs, again); f != "" {
+			return "second render of the same loaded templates: " + f
+		}
+	}
+	return ""
+}
+
+func c10CheckOutput(cs escCase, out string) string {
+	if strings.HasSuffix(cs.Context, "plain-after-upper") {
 		// the prefix is the length of the upper-cased escaped text: only the part in brackets matters
 		if i := strings.Index(out, "["); i >= 0 {
 			out = out[i:]
@@ -154,13 +174,23 @@ func c10RawContext(lit string) escCase {
 }
 
 func c10TreeContexts(lit string) []escCase {
-	return []escCase{
+	// every string-API context also as a page of a loaded template (parsed once, rendered twice)
+	var paged []escCase
+	for _, cs := range c10Contexts(lit) {
+		cs.Tree = map[string]string{"page": cs.Src}
+		cs.Context = "page:" + cs.Context
+		cs.Src = ""
+		paged = append(paged, cs)
+	}
+	return append(paged, []escCase{
 		{Context: "insert-argument", Pre: "<t>", Post: "</t>", Tree: map[string]string{"layouts/l": "<t>@reserve(\"r\")</t>", "page": "@use(\"~l\")@insert(\"r\", " + lit + ")"}},
 		{Context: "insert-block", Pre: "<t>[", Post: "]</t>", Tree: map[string]string{"layouts/l": "<t>@reserve(\"r\")</t>", "page": "@use(\"~l\")@insert(\"r\")[{{ " + lit + " }}]@end"}},
 		{Context: "component-argument", Pre: "<c>", Post: "</c>;", Tree: map[string]string{"comp": "<c>{{ x }}</c>", "page": "@component(\"comp\", {x: " + lit + "});"}},
 		{Context: "slot-body", Pre: "<c>[", Post: "]</c>;", Tree: map[string]string{"comp": "<c>@slot</c>", "page": "@component(\"comp\")\n@slot[{{ " + lit + " }}]@end\n@end;"}},
 		{Context: "component-argument-raw", Raw: true, Pre: "<c>", Post: "</c>;", Tree: map[string]string{"comp": "<c>{{ x.raw() }}</c>", "page": "@component(\"comp\", {x: " + lit + "});"}},
-	}
+		{Context: "literal-in-layout", Pre: "<t>[", Post: "]x</t>", Tree: map[string]string{"layouts/l": "<t>[{{ " + lit + " }}]@reserve(\"r\")</t>", "page": "@use(\"~l\")@insert(\"r\", \"x\")"}},
+		{Context: "literal-in-component-file", Pre: "<c>[", Post: "]</c>;", Tree: map[string]string{"comp": "<c>[{{ " + lit + " }}]</c>", "page": "@component(\"comp\");"}},
+	}...)
 }
 
 func c10NonTrivial(content string) bool { return strings.ContainsAny(content, "<>&\"'") }
